@@ -29,6 +29,9 @@ func init() {
 				}
 			}
 			ruleFinishAlways(w, r, "C16.R5")
+			ruleLoopFailureStops(w, r, "C16.R5", cmdFuncs(w))
+			r.Rule("C16.R6", "archive selection (decision diagram): fetchTimeSeriesList and fetchRawPointsLists, evaluated for a 2-archive file and every selection in -3..3, call the per-archive reader only with ids 0 and 1, read both for 'all', and fail for every other selection", 2)
+			ruleArchiveIDDispatch(w, r, "C16.R6")
 		},
 	})
 }
